@@ -361,6 +361,7 @@ def run_case(case, ctx):
                         f"{what}: {split} via {iface}: " +
                         oracles.multiset_diff(ids, want))
                 ctx.count("reads")
+            ctx.evaluated()
         if not unreadable:
             res = oracles.exactness_walk(root / "ds", desc, _NoUnlisted(ctx))
             total = res["decoded_total"]
